@@ -57,6 +57,15 @@ func runWorld(t *rapid.T, prop string) {
 	if vev.Thorough() && rapid.IntRange(0, 9).Draw(t, "longchains") == 0 {
 		gen.MaxPathLen = 127
 	}
+	profile := rapid.SampledFrom(vnet.Profiles).Draw(t, "profile")
+	if unanimous {
+		profile = "near-sync"
+	}
+	if profile == "gate" || profile == "laggard" {
+		// the gate schedule splits proposals best when the inputs themselves agree
+		gen.MinPathLen = 1
+		gen.Unanimous = rapid.Bool().Draw(t, "gateunanimous")
+	}
 	cfg := vnet.GenConfig(t, gen)
 	var fails []failure
 	other := map[string]int{}
@@ -74,10 +83,6 @@ func runWorld(t *rapid.T, prop string) {
 		} else {
 			other[id]++
 		}
-	}
-	profile := rapid.SampledFrom(vnet.Profiles).Draw(t, "profile")
-	if unanimous {
-		profile = "near-sync"
 	}
 	ro := vnet.RunOpts{Profile: profile, MaxSteps: maxSteps(), AllowDrop: !unanimous, AllowByz: !unanimous}
 	if unanimous {
